@@ -11,17 +11,19 @@
 
 namespace c19 {
 
-// ---- tolerances (all relative to the stated scale; calibrated with stats().maxi over seeds 1..5, see props.d/C19.py) ----
-// transforms: element-wise |F - Fref| <= TOL * ||x||_2 (float FFT with float twiddles; observed max ~2e-6 at 2^16 elements)
-constexpr double TOL_DFT = 4e-5;
-// Parseval: relative to N * sum|x|^2 (observed ~4e-7)
-constexpr double TOL_PARSEVAL = 1e-5;
-// round trip and real-data routines: element-wise relative to ||x||_2 (observed ~3e-7 / ~2e-6)
-constexpr double TOL_INV = 1e-5;
-// direct convolutions in float: element-wise relative to ||k||_1 * ||x||_inf (observed ~3e-7)
+// ---- tolerances -------------------------------------------------------------------------------------------
+// All relative to the stated scale.  Calibrated with stats().maxi over ./check C19 --tier quick, VERIF_SEED=1..5
+// (about 200 000 cases incl. all 600 transform shapes); "observed" = maximum seen on the unchanged tree.
+// transforms: element-wise |F - Fref| <= TOL * ||x||_2        (float FFT with float twiddles; observed 9.4e-7, 1.2e-6 between the two STIR routes)
+constexpr double TOL_DFT = 2e-5;
+// Parseval: relative to N * sum|x|^2                            (observed 1.8e-7)
+constexpr double TOL_PARSEVAL = 5e-6;
+// round trips (complex and real-data routines): element-wise relative to ||x||_2   (observed 2.0e-7)
+constexpr double TOL_INV = 5e-6;
+// direct convolutions in float: element-wise relative to ||k||_1 * ||x||_inf        (observed 2.1e-7; kernels up to 48 long)
 constexpr double TOL_CONV = 1e-5;
-// padded-DFT route: element-wise relative to ||k||_1 * ||x||_inf (DESIGN: 1e-4; observed ~1e-6)
-constexpr double TOL_DFTCONV = 1e-4;
+// padded-DFT route: element-wise relative to ||k||_1 * ||x||_inf                    (DESIGN: 1e-4; observed 3.8e-7)
+constexpr double TOL_DFTCONV = 2e-5;
 
 inline bool
 no_exclude()
